@@ -242,6 +242,54 @@ where
     }
 }
 
+/// No start digraph with a self-loop or an endpoint outside V is reachable:
+/// a constructor given rows or arcs with ONE offending element — in any row,
+/// after valid, empty or full rows — has to panic.
+fn invalid_start_rejected(r: &mut Rng, m: &Model, ty: usize, o: &mut CaseOut) {
+    use std::collections::{BTreeMap, BTreeSet};
+    let n = m.n();
+    let u = r.below(n);
+    let mut rows: Vec<BTreeMap<usize, i64>> = (0..n).map(|x| m.out_w(x).into_iter().collect()).collect();
+    if u > 0 && r.chance(0.5) {
+        // an empty row somewhere before the offending one
+        let j = r.below(u);
+        rows[j].clear();
+    }
+    let bad = if r.chance(0.5) { u } else { *r.pick(&[n, n + 1, 2 * n, usize::MAX]) };
+    let _ = rows[u].insert(bad, 1);
+    let what = || format!("row {u} of {n} rows contains {bad}");
+    let sets: Vec<BTreeSet<usize>> = rows.iter().map(|row| row.keys().copied().collect()).collect();
+    match ty {
+        0 => {
+            let _ = o.must_panic("start:AdjacencyList::from(rows)-accepts-an-invalid-row", what, || AdjacencyList::from(sets.clone()));
+        }
+        1 => {
+            let _ = o.must_panic("start:AdjacencyMap::from(rows)-accepts-an-invalid-row", what, || AdjacencyMap::from(sets.clone()));
+        }
+        2 | 3 => {
+            // arcs: only a self-loop is invalid (a larger id just raises the order)
+            let mut arcs = m.arc_list();
+            let at = r.below(arcs.len() + 1);
+            arcs.insert(at, (u, u));
+            let what = || format!("arc ({u},{u}) at position {at} of {}", arcs.len());
+            if ty == 2 {
+                let _ = o.must_panic("start:AdjacencyMatrix::from(arcs)-accepts-a-self-loop", what, || AdjacencyMatrix::from(arcs.clone()));
+            } else {
+                let _ = o.must_panic("start:EdgeList::from(arcs)-accepts-a-self-loop", what, || EdgeList::from(arcs.clone()));
+            }
+        }
+        4 => {
+            let w: Vec<BTreeMap<usize, usize>> = rows.iter().map(|row| row.iter().map(|(&v, &x)| (v, x.unsigned_abs() as usize)).collect()).collect();
+            let _ = o.must_panic("start:AdjacencyListWeighted<usize>::from(rows)-accepts-an-invalid-row", what, || AdjacencyListWeighted::<usize>::from(w.clone()));
+        }
+        _ => {
+            let w: Vec<BTreeMap<usize, isize>> = rows.iter().map(|row| row.iter().map(|(&v, &x)| (v, x as isize)).collect()).collect();
+            let _ = o.must_panic("start:AdjacencyListWeighted<isize>::from(rows)-accepts-an-invalid-row", what, || AdjacencyListWeighted::<isize>::from(w.clone()));
+        }
+    }
+    o.bump("invalid_start_probe");
+}
+
 fn pick_order(r: &mut Rng, p: &Params) -> usize {
     let max = p.usize("max_order", 129);
     let n = match r.below(20) {
@@ -316,6 +364,9 @@ pub fn case(idx: u64, seed: u64, p: &Params, o: &mut CaseOut) {
 
     d.observe(&m, o, "start", true);
     o.check(d.eq_fresh(&m), "start:eq-fresh", || "start digraph != digraph freshly built from the model".into());
+    if m.is_contig() && n >= 2 && r.chance(0.25) {
+        invalid_start_rejected(&mut r, &m, ty, o);
+    }
 
     for step in 0..len {
         // choose an operation
